@@ -4,7 +4,7 @@ CONSTANTS
   ReqTypes <- TypesSamples
   NItems = 2
   MaxAnswers = 2
-  Chains <- ChainsAll
+  Chains <- ChainsDirect
   NPeers = 3
   BlockStores <- StoresAll
   ClearOnFail = TRUE
